@@ -297,11 +297,13 @@ func c27Exec(r *verifh.Run, l string) {
 		return "diff"
 	}
 	reuse := fmt.Sprintf(" again=%s json=%s mut=%v", same(fpAgain), same(fpJSON), mutated)
-	if mutated {
-		r.Violation("genesis-object-mutated", "InitializeState altered the genesis object's allocation list: %s", l)
-	}
-	if fpAgain != fpRef || fpJSON != fpRef {
-		r.Violation("genesis-not-reusable", "re-initialising the same genesis value gives another state (again=%s json=%s): %s", same(fpAgain), same(fpJSON), l)
+	reuseOracle := func() { // called right after the line is emitted
+		if mutated {
+			r.Violation("genesis-object-mutated", "InitializeState altered the genesis object's allocation list: %s", l)
+		}
+		if fpAgain != fpRef || fpJSON != fpRef {
+			r.Violation("genesis-not-reusable", "re-initialising the same genesis value gives another state (again=%s json=%s): %s", same(fpAgain), same(fpJSON), l)
+		}
 	}
 
 	// the property's statement, evaluated independently of the implementation
@@ -333,6 +335,7 @@ func c27Exec(r *verifh.Run, l string) {
 			kind = "keyvalue"
 		}
 		r.Emit(l, "err "+kind+reuse)
+		reuseOracle()
 		r.Count("err:" + kind)
 		if blk != nil || view != nil {
 			r.Violation("error-with-result", "NewGenesisCommit returned an error and a block/view for %s", l)
@@ -376,6 +379,7 @@ func c27Exec(r *verifh.Run, l string) {
 		fmt.Fprintf(&sb, " %s=%s", verifh.Hex(e.k), verifh.Hex(e.v))
 	}
 	r.Emit(l, sb.String()+reuse)
+	reuseOracle()
 	r.Distinct(sig)
 
 	// oracle
